@@ -407,6 +407,17 @@ def catalogue():
             return False
         k = r.choice(ks); d["firewall"][k] = d["firewall"][k] + [r.choice(["nonexistent", 5, None])]
 
+    @rule("defective subnet firewall rule for a pair the topology does not connect")
+    def _(d, r):
+        # every rule of the section must be a list of distinct known services, also one nobody asked for
+        t = d["topology"]
+        free = [f"({i}, {j})" for i in range(len(t)) for j in range(len(t))
+                if i != j and t[i][j] != 1 and t[j][i] != 1 and f"({i}, {j})" not in d["firewall"]]
+        if not free:
+            return False
+        k = r.choice(free)
+        d["firewall"][k] = r.choice(["ssh", 3, None, [d["services"][0], d["services"][0]], ["nonexistent"], [5]])
+
     @rule("subnet firewall key that is not a pair")
     def _(d, r):
         d["firewall"][r.choice(["internet", 7])] = []
@@ -442,7 +453,11 @@ def impl_load(path):
         if isinstance(e, (KeyboardInterrupt, SystemExit)):
             raise
         return False, f"{type(e).__name__}: {str(e)[:120]}", None
-    return True, norm(dump_impl(sc)), sc
+    try:
+        return True, norm(dump_impl(sc)), sc
+    except Exception as e:
+        # accepted, but what came back cannot even be written down as a scenario (e.g. a rule that is not a list)
+        return True, f"undumpable scenario: {type(e).__name__}: {str(e)[:100]}", None
 
 
 def run_batch(args):
@@ -475,10 +490,13 @@ def run_batch(args):
                 cases.append(("mutant", rname, d))
         reqs, impl = [], []
         for i, (kind, rname, doc) in enumerate(cases):
-            path = os.path.join(tmpdir, f"d{i}.yaml")
+            # a handful of paths, written again and again with other documents: loading a path must reflect what the
+            # file says *now*; the harness parses the file itself (PyYAML FullLoader, as nasim.scenarios.utils.load_yaml does)
+            path = os.path.join(tmpdir, f"d{i % 3}.yaml")
             with open(path, "w") as fh:
                 yaml.safe_dump(tuples_to_lists(doc), fh, sort_keys=False, default_flow_style=None)
-            parsed = u.load_yaml(path)
+            with open(path) as fh:
+                parsed = yaml.load(fh, Loader=yaml.FullLoader)
             try:
                 reqs.append("DOC " + " ".join(doc_tokens(parsed)))
             except C.Untranslatable:
